@@ -109,6 +109,15 @@ def gen_variant(r, trig):
     elif trig in ('host_mismatch', 'host_mismatch_port'):
         if trig == 'host_mismatch':
             other = grammar.gen_host(r) + 'x'
+            k = r.randrange(6)
+            if k == 0:
+                # two different IPv6 literals (sharing a prefix), IPv4 addresses, or a literal against a name
+                host, other = r.pick([('[::1]', '[::2]'), ('[fe80::1]', '[fe80::2]'), ('[2001:db8::1]', '[2001:db8::2]'), ('[2001:db8:0:1::1]', '[2001:db8:0:2::1]'),
+                                      ('10.0.0.1', '10.0.0.2'), ('192.168.1.10', '192.168.1.100'), ('[::1]', 'localhost'), ('example.com', 'example.org'),
+                                      ('a.example.com', 'b.example.com'), ('example.com', 'example.com.evil.test')])
+                if r.chance(0.5):
+                    host, other = other, host
+                host_line = hline(r, 'Host', host)
             target = 'http://' + other + r.pick(['', ':80']) + target
         else:
             target = 'http://' + host + ':8080' + target
